@@ -107,11 +107,17 @@ func writerLayout(p *Program, fn *ssa.Function) ([]layoutElem, string, []string)
 					lens[x.Args[0].Key()] = f
 					out = append(out, layoutElem{"U32LEN", f})
 				} else if f := rootField(x, recv); f != "" {
+					if !verbatimField(x, recv) {
+						notes = append(notes, "the number written for "+f+" is computed ("+prettyTerm(x)+"), not the field as it stands")
+					}
 					out = append(out, layoutElem{"U32", f})
 				} else {
 					out = append(out, layoutElem{"U32", "?" + prettyTerm(x)})
 				}
 			case e.Op == "call" && e.Fn != nil && e.Fn.Name() == "uint64ToBytes":
+				if f := rootField(e.Args[0], recv); f != "" && !verbatimField(e.Args[0], recv) {
+					notes = append(notes, "the number written for "+f+" is computed ("+prettyTerm(e.Args[0])+"), not the field as it stands")
+				}
 				out = append(out, layoutElem{"U64", rootField(e.Args[0], recv)})
 			default:
 				f := rootField(e, recv)
@@ -150,6 +156,9 @@ func readerLayout(p *Program, fn *ssa.Function) ([]layoutElem, []string) {
 			for i := from; i < len(pr.Events); i++ {
 				e := pr.Events[i]
 				if e.Kind == "store" && e.Addr.Op == "fa" && e.Addr.Args[0].Key() == recv.Key() && has(e.Val) {
+					if isIntType(t.Type) && stripConvTerm(e.Val).Key() != t.Key() {
+						notes = append(notes, "the number read for "+e.Addr.Name+" is stored after a computation ("+prettyTerm(e.Val)+"), not as it was read")
+					}
 					return e.Addr.Name
 				}
 				if e.Kind == "call" || e.Kind == "invoke" {
@@ -273,6 +282,12 @@ func ruleLayout(c *Ctx) {
 		}
 		c.check(len(bad) == 0, "layout-agreement", typ.name, pos, fmt.Sprintf("writer and reader agree on %d elements: %s", len(wl), strings.Join(ws, " ")), strings.Join(uniq(bad), " || "), len(wl))
 	}
+}
+
+// verbatimField: x is the receiver's field as loaded, possibly converted.
+func verbatimField(x, recv *Term) bool {
+	x = stripConvTerm(x)
+	return x.Op == "init" && x.Args[0].Op == "fa" && x.Args[0].Args[0].Key() == recv.Key()
 }
 
 func fieldsAgree(a, b string) bool {
